@@ -242,8 +242,14 @@ func Build(d any, h Host) (interface{}, error) {
 		}
 		return out, nil
 	case "time":
-		ms, _ := t[1].(int64)
-		return time.UnixMilli(ms).UTC(), nil
+		days, _ := t[1].(int64)
+		ms, _ := t[2].(int64)
+		off, _ := t[3].(int64)
+		tm := time.UnixMilli(days*86400000 + ms)
+		if off == 0 {
+			return tm.UTC(), nil
+		}
+		return tm.In(time.FixedZone("", int(off))), nil
 	case "func":
 		name, _ := t[1].(string)
 		if h != nil {
